@@ -22,6 +22,11 @@ try:
         print(f'== {p}: exit={q.returncode}')
         for l in last:
             print('   ', l[:300])
+        import glob, json
+        for f in sorted(glob.glob(f'/var/tmp/seedbuild-{os.getpid()}/replays/{p}-*.json')):
+            r = json.load(open(f))
+            print('      obligation:', (r.get('obligation') or '')[:200], '| reproduced input:', 'yes' if r.get('input') and 'not re-executed' not in str(r.get('observed')) else 'no')
+        shutil.rmtree(f'/var/tmp/seedbuild-{os.getpid()}/replays', ignore_errors=True)
 finally:
     subprocess.run(['git', '-C', '/repo', 'worktree', 'remove', '--force', wt], capture_output=True)
     shutil.rmtree(wt, ignore_errors=True)
